@@ -218,6 +218,7 @@ class Aggregate:
         self.worker_wall = 0.0
         self.enum_nontrivial = 0
         self.enum_digests = {}
+        self.slowest = []
 
     def add(self, task, reply):
         now = time.monotonic()
@@ -237,6 +238,8 @@ class Aggregate:
             return self.add_enum(task, reply)
         self.evaluations += 1
         self.worker_wall += reply.get("wall", 0.0)
+        self.slowest.append((round(reply.get("wall", 0.0), 2), task.get("index")))
+        self.slowest = sorted(self.slowest, reverse=True)[:5]
         self.fired.update(rep.get("fired", {}))
         self.unfired += rep.get("unfired", 0)
         self.probes.update(rep.get("probes", {}))
